@@ -220,7 +220,7 @@ def waiting_resume(self, value=NULL):
     replay('first_resume_records', 'waiting_resume')
 
 
-@contract('plumpy.process_states.Waiting.interrupt', props=['C05', 'C06'])
+@contract('plumpy.process_states.Waiting.interrupt', props=['C04', 'C05', 'C06'])
 def waiting_interrupt(self, reason):
     """an interruption is delivered to the coroutine waiting in execute() through the waiting future; nothing else changes"""
     requires(isinstance(self._waiting_future, asyncio.Future))
